@@ -28,6 +28,8 @@ pub enum Spec {
     Emb,
     Alt { inner: Box<Spec>, p: String },
     Ovl { layers: Vec<Spec> },
+    /// overlay whose layers are sub-directories `dirs[i]` of ONE underlying filesystem instance
+    OvlSub { base: Box<Spec>, dirs: Vec<String> },
 }
 
 impl Spec {
@@ -42,6 +44,7 @@ impl Spec {
             Spec::Ovl { layers } => {
                 format!("ovl({})", layers.iter().map(|l| l.shape()).collect::<Vec<_>>().join(","))
             }
+            Spec::OvlSub { base, dirs } => format!("ovlsub{}({})", dirs.len(), base.shape()),
         }
     }
     pub fn has_phys(&self) -> bool {
@@ -50,11 +53,12 @@ impl Spec {
             Spec::Mem { .. } | Spec::Emb => false,
             Spec::Alt { inner, .. } => inner.has_phys(),
             Spec::Ovl { layers } => layers.iter().any(|l| l.has_phys()),
+            Spec::OvlSub { base, .. } => base.has_phys(),
         }
     }
     pub fn has_ovl(&self) -> bool {
         match self {
-            Spec::Ovl { .. } => true,
+            Spec::Ovl { .. } | Spec::OvlSub { .. } => true,
             Spec::Mem { .. } | Spec::Emb | Spec::Phys { .. } => false,
             Spec::Alt { inner, .. } => inner.has_ovl(),
         }
@@ -64,6 +68,7 @@ impl Spec {
             Spec::Mem { .. } | Spec::Phys { .. } | Spec::Emb => 1,
             Spec::Alt { inner, .. } => 1 + inner.node_count(),
             Spec::Ovl { layers } => 1 + layers.iter().map(|l| l.node_count()).sum::<usize>(),
+            Spec::OvlSub { base, .. } => 1 + base.node_count(),
         }
     }
     pub fn pre_total(&self) -> usize {
@@ -72,6 +77,7 @@ impl Spec {
             Spec::Emb => 0,
             Spec::Alt { inner, .. } => inner.pre_total(),
             Spec::Ovl { layers } => layers.iter().map(|l| l.pre_total()).sum(),
+            Spec::OvlSub { base, .. } => base.pre_total(),
         }
     }
     /// The top-level view this stack presents initially (union semantics for overlays).
@@ -108,6 +114,18 @@ impl Spec {
                 }
                 m
             }
+            Spec::OvlSub { base, dirs } => {
+                let bv = base.view();
+                let mut m = Model::new();
+                for d in dirs {
+                    for (k, v) in &bv.t {
+                        if crate::model::is_under(k, d) {
+                            m.t.entry(k[d.len()..].to_string()).or_insert(v.clone());
+                        }
+                    }
+                }
+                m
+            }
         }
     }
 }
@@ -122,6 +140,8 @@ pub struct NodeInfo {
     pub layer_index: Option<usize>,
     pub phys_dir: Option<PathBuf>,
     pub alt_p: Option<String>,
+    /// for `ovlsub`: the layer directories inside the (single) underlying filesystem
+    pub sub_dirs: Vec<String>,
 }
 
 pub struct Built {
@@ -187,6 +207,45 @@ impl Built {
         v.dedup();
         v
     }
+    /// (node id of the shared underlying filesystem, directory prefix) of every lower layer that
+    /// is a sub-directory of a filesystem instance shared with the upper layer
+    pub fn lower_layer_prefixes(&self) -> Vec<(u16, String)> {
+        let mut v = vec![];
+        for n in &self.nodes {
+            if n.kind == "ovlsub" {
+                if let Some(base) = self.nodes.iter().find(|b| b.parent == Some(n.id)) {
+                    for d in n.sub_dirs.iter().skip(1) {
+                        v.push((base.id, d.clone()));
+                    }
+                }
+            }
+        }
+        v
+    }
+    /// does this recorded call touch a lower layer of some overlay of the stack?
+    pub fn touches_lower(&self, node: u16, path: &str, path2: Option<&str>) -> bool {
+        if self.lower_layer_nodes().contains(&node) {
+            return true;
+        }
+        for (id, pfx) in self.lower_layer_prefixes() {
+            if id == node {
+                // `path2` given = a two-path call: the caller passes only the mutated side(s)
+                for p in std::iter::once(path).chain(path2.into_iter()) {
+                    if p == pfx || crate::model::is_under(p, &pfx) {
+                        return true;
+                    }
+                }
+            }
+        }
+        false
+    }
+    /// the paths a recorded call mutates: copy_file writes only its destination
+    pub fn mutated_paths<'a>(method: &str, path: &'a str, path2: Option<&'a str>) -> (&'a str, Option<&'a str>) {
+        match (method, path2) {
+            ("copy_file", Some(d)) => (d, None),
+            _ => (path, path2),
+        }
+    }
     pub fn leaf_nodes(&self) -> Vec<u16> {
         self.nodes.iter().filter(|n| matches!(n.kind, "mem" | "phys" | "emb")).map(|n| n.id).collect()
     }
@@ -251,7 +310,9 @@ impl Builder {
             layer_index,
             phys_dir: None,
             alt_p: None,
+            sub_dirs: vec![],
         });
+        let mut sub_dirs: Vec<String> = vec![];
         let (kind, root, phys_dir, alt_p) = match spec {
             Spec::Mem { pre } => {
                 let r = VfsPath::new(SimFS::new(MemoryFS::new(), id, self.ctl.clone()));
@@ -293,12 +354,25 @@ impl Builder {
                 let r = VfsPath::new(SimFS::new(OverlayFS::new(&ls), id, self.ctl.clone()));
                 ("ovl", r, None, None)
             }
+            Spec::OvlSub { base, dirs } => {
+                let br = self.build(base, Some(id), None)?;
+                let mut ls = vec![];
+                for d in dirs {
+                    let sub = br.join(&d[1..]).map_err(|e| e.to_string())?;
+                    self.ctl.quiet(|| sub.create_dir_all()).map_err(|e| format!("layer dir: {}", e))?;
+                    ls.push(sub);
+                }
+                sub_dirs = dirs.clone();
+                let r = VfsPath::new(SimFS::new(OverlayFS::new(&ls), id, self.ctl.clone()));
+                ("ovlsub", r, None, None)
+            }
         };
         let n = &mut self.nodes[id as usize];
         n.kind = kind;
         n.root = root.clone();
         n.phys_dir = phys_dir;
         n.alt_p = alt_p;
+        n.sub_dirs = sub_dirs;
         Ok(root)
     }
 }
